@@ -941,7 +941,9 @@ class _function(object):
 
         f = _function()
 
-        if len(self._constant) != 1 or self._constant[0]:
+        # (a zero constant is kept if the index list is longer than 1, so 
+        # that the zero function of length 1 gives a result of length len(l))
+        if len(self._constant) != 1 or self._constant[0] or len(l) != 1:
             if 1 == len(self._constant) != lg: 
                 f._constant = +self._constant
             else: 
